@@ -82,6 +82,9 @@ class Outcome:
         lines = []
         for what, n in sorted(hits.items()):
             lines.append("KNOWN-FINDING: property=%s %s (%d occurrences in this run)" % (self.prop, what, n))
+        import glob
+        for old in glob.glob(os.path.join(REPLAYS, "%s-*.json" % self.prop)):
+            os.unlink(old)
         paths = []
         for i, v in enumerate(new[:20]):
             p = os.path.join(REPLAYS, "%s-%d.json" % (self.prop, i))
